@@ -121,7 +121,10 @@ Definition sp_step (c : cfg) (s : sp_state) (e : event) (out : list frame) : sp_
       end
   | RxArp p =>
       let v :=
-        if sp_is_probe p then
+        if sp_closed s then
+          (* Close stops all spoofing: a closed handler answers nothing *)
+          match out with [] => [] | _ => [VCloseStops] end
+        else if sp_is_probe p then
           if sp_probe_reject_due c (sp_hist s) p then
             match out with
             | [f] => if sp_is_reply_to c p f && (ftip f =? IP4_BCAST) then [] else [VProbeReject]
